@@ -7,6 +7,8 @@
 package main
 
 import (
+	"crypto/sha256"
+	"encoding/hex"
 	"encoding/json"
 	"flag"
 	"fmt"
@@ -15,8 +17,7 @@ import (
 	"runtime"
 	"sort"
 	"strings"
-	"crypto/sha256"
-	"encoding/hex"
+	"sync/atomic"
 	"syscall"
 	"time"
 
@@ -25,25 +26,25 @@ import (
 )
 
 type summary struct {
-	Type        string            `json:"type"`
-	Profile     string            `json:"profile"`
-	Runs        int               `json:"runs"`
-	Nontrivial  int               `json:"nontrivial"`
-	Digests     []string          `json:"digests"` // of non-trivial runs
-	Steps       uint64            `json:"steps"`
-	FakeNS      int64             `json:"fake_ns"`
-	Reasons     map[string]int    `json:"reasons"`
-	FaultKinds  map[string]int    `json:"fault_kinds"`
-	Probes      map[string]int    `json:"probes"`
-	Extra       map[string]int    `json:"extra"`
-	Leaked      int               `json:"leaked"`
-	Samples     []json.RawMessage `json:"samples"`
-	WallS       float64           `json:"wall_s"`
-	Violations  int               `json:"violations"`
-	FirstSeed   uint64            `json:"first_seed"`
-	LastSeed    uint64            `json:"last_seed"`
-	AllDigest   string            `json:"all_digest"`
-	Known       map[string]int    `json:"known"`
+	Type       string            `json:"type"`
+	Profile    string            `json:"profile"`
+	Runs       int               `json:"runs"`
+	Nontrivial int               `json:"nontrivial"`
+	Digests    []string          `json:"digests"` // of non-trivial runs
+	Steps      uint64            `json:"steps"`
+	FakeNS     int64             `json:"fake_ns"`
+	Reasons    map[string]int    `json:"reasons"`
+	FaultKinds map[string]int    `json:"fault_kinds"`
+	Probes     map[string]int    `json:"probes"`
+	Extra      map[string]int    `json:"extra"`
+	Leaked     int               `json:"leaked"`
+	Samples    []json.RawMessage `json:"samples"`
+	WallS      float64           `json:"wall_s"`
+	Violations int               `json:"violations"`
+	FirstSeed  uint64            `json:"first_seed"`
+	LastSeed   uint64            `json:"last_seed"`
+	AllDigest  string            `json:"all_digest"`
+	Known      map[string]int    `json:"known"`
 }
 
 type knownFinding struct{ prop, oracle, match string }
@@ -80,16 +81,16 @@ func loadKnown(path string) []knownFinding {
 
 // ReplayFile is what is written under replays/.
 type ReplayFile struct {
-	Property  string         `json:"property"`
-	Profile   string         `json:"profile"`
-	Seed      uint64         `json:"seed"`
-	Plan      *sim.Plan      `json:"plan"`
-	Violation sim.Violation  `json:"violation"`
+	Property  string          `json:"property"`
+	Profile   string          `json:"profile"`
+	Seed      uint64          `json:"seed"`
+	Plan      *sim.Plan       `json:"plan"`
+	Violation sim.Violation   `json:"violation"`
 	All       []sim.Violation `json:"all_violations,omitempty"`
-	Digest    string         `json:"decisions_digest"`
-	Steps     uint64         `json:"n_steps"`
-	Minimised bool           `json:"minimised"`
-	Note      string         `json:"note,omitempty"`
+	Digest    string          `json:"decisions_digest"`
+	Steps     uint64          `json:"n_steps"`
+	Minimised bool            `json:"minimised"`
+	Note      string          `json:"note,omitempty"`
 }
 
 func watchdog() {
@@ -124,6 +125,7 @@ func main() {
 	printPlan := flag.Bool("plan", false, "print the generated plan of -from and exit")
 	knownPath := flag.String("known", "", "known findings file")
 	onlyProp := flag.String("prop", "", "report only violations of this property (others are counted)")
+	free := flag.Bool("free", false, "free mode: scheduling points are no-ops (for the -race build)")
 	flag.Parse()
 	watchdog()
 
@@ -149,6 +151,28 @@ func main() {
 		return
 	}
 	enc := json.NewEncoder(os.Stdout)
+	var curSeed atomic.Uint64
+	go func() {
+		// real-time watchdog for a teardown that never ends (a goroutine of the
+		// code under test spins without blocking): report the run and leave
+		for {
+			time.Sleep(time.Second)
+			since := sim.TeardownSince.Load()
+			if since == 0 || sim.RealNow()-since < int64(40*time.Second) {
+				continue
+			}
+			out, p := sim.TeardownOut.Load(), sim.TeardownPlan.Load()
+			v := sim.Violation{Prop: pr.Prop, Oracle: "spins-after-teardown", Msg: "after the run every context was cancelled, the client and all connections were closed, and 40 s of real time later a goroutine is still running without ever blocking"}
+			all := append([]sim.Violation{v}, out.Violations...)
+			if *onlyProp == "" || *onlyProp == pr.Prop {
+				rf := ReplayFile{Property: pr.Prop, Profile: *profile, Seed: curSeed.Load(), Plan: p, Violation: all[0], All: all, Digest: out.Digest, Steps: out.Steps}
+				b, _ := json.Marshal(rf)
+				fmt.Printf("VIOL %s\n", b)
+			}
+			fmt.Printf("SUMMARY {\"type\":\"summary\",\"profile\":%q,\"runs\":1,\"violations\":1,\"reasons\":{\"teardown-hang\":1}}\n", *profile)
+			os.Exit(0)
+		}
+	}()
 	sum := &summary{Type: "summary", Profile: *profile, Reasons: map[string]int{}, FaultKinds: map[string]int{}, Probes: map[string]int{}, Extra: map[string]int{}, Known: map[string]int{}, FirstSeed: *from}
 	knowns := loadKnown(*knownPath)
 	allh := sha256.New()
@@ -163,8 +187,10 @@ func main() {
 			break
 		}
 		seed := *from + uint64(i)**stride
+		curSeed.Store(seed)
 		fmt.Printf("RUN %d\n", seed)
 		p := pr.Generate(seed, rng.New(rng.Derive(seed, 77)))
+		p.Free = *free
 		wantTrace := *keep || len(sum.Samples) < 2
 		out := sim.RunPlan(pr, p, wantTrace)
 		sum.Runs++
